@@ -155,6 +155,22 @@ def compare(R, tag, impl, S, smiles, wit):
     if key:
         R.outcomes['differs:' + key] += 1
         R.violation('%s:%s' % (tag.split('/')[0], key), '[%s] %s' % (tag, msg), wit)
+    elif exp[0] == 'ok' and tag.startswith('library') and not exp[3]:
+        # the same molecule as an OBJECT with all hydrogens explicit, given twice
+        from rdkit import Chem
+        obj = Chem.AddHs(Chem.MolFromSmiles(smiles))
+        for n in (1, 2):
+            g2 = impl_decompose(impl, obj)
+            R.evals += 1
+            if g2[0] != 'ok' or not same_totals(g2[1], exp[1]):
+                R.outcomes['object-input:differs'] += 1
+                R.violation('%s:object-input-call-%d' % (tag.split('/')[0], n),
+                            '[%s] %s given as a hydrogen-explicit molecule object '
+                            '(call %d on the same object): %r, declared %r' % (
+                                tag, smiles, n, g2[:2], exp[1]), wit)
+                break
+        else:
+            R.outcomes['object-input:same-twice'] += 1
 
 
 def classify_names(diff, S):
